@@ -10,6 +10,8 @@ _base = {'species': T.Str, 'atomicNumber': T.Int, 'mass': T.Real, 'embeddingFunc
 # electronDensityFunction is a callable (EAM) or a dict  neighbour species -> callable (Finnis-Sinclair): both views
 REG.add_class(ClassDecl(F_EAM, 'EAMPotential', dict(_base, electronDensityFunction=T.FnOrDict(T.Str, T.Fn))))
 
+REG.add(Contract(F_EAM, 'EAMPotential.__init__', inline=True))     # seven attribute assignments: callers execute the real body
+
 def eam(cls='EAMPotential'):
     S = ObjSort(cls)
     d = dict(sort=S, species=field(cls, 'species', StrS), Z=field(cls, 'atomicNumber', IntS), mass=field(cls, 'mass', RealS),
